@@ -30,6 +30,8 @@ def required_cells(tier):
         req["zero-pattern:" + z] = 10
     req["negative-leading"] = 100
     req["history:forms-after-derived-planes-moved"] = 50
+    req["line:support-equals-direction"] = 300
+    req["plane:normal-components-up-to-5"] = 250 if tier == "quick" else 900
     return req
 
 
@@ -51,6 +53,13 @@ def cases(rng, budget, widx, nworkers, tier):
         if idx % nworkers == widx:
             yield {"k": "plane", "p": gen.rpt(rng), "n": n, "ls": idx}
             yield {"k": "line", "p": gen.rpt(rng), "d": n, "ls": idx}
+            yield {"k": "line", "p": n, "d": n, "ls": idx, "special": "support-equals-direction"}
+    # wider normals / directions (|c| <= 5: pivots that are thirds, fifths, sevenths), sampled in quick, all in thorough
+    wide = [n for n in _dirs(5) if max(abs(c) for c in n) > 3]
+    for j, n in enumerate(wide):
+        idx += 1
+        if idx % nworkers == widx and (tier == "thorough" or j % 3 == rng.randrange(3)):
+            yield {"k": "plane", "p": gen.rpt(rng), "n": n, "ls": idx, "wide": True}
     if tier == "thorough":
         for _ in range(200000 // nworkers):
             yield {"k": "plane", "p": gen.rpt(rng, 8), "n": gen.rdir(rng, 4), "ls": rng.getrandbits(30)}
@@ -113,7 +122,10 @@ def _judge_plane(G, mu, Pobj, pd, key):
             u, v, w = res
             vf, wf, nf = [tuple(float(c) for c in t) for t in (v, w, Pobj.n)]
             cr = K.cross(vf, wf)
-            if K.norm(cr) <= 1e-3:
+            big = max(K.norm(vf), K.norm(wf))
+            if not (big < 1e6):
+                mu.fail(key + ":parametric-vectors-huge/zero-" + _zp(n), "parametric() returned a spanning vector of length %.3g: %r, %r" % (big, v, w))
+            elif K.norm(cr) <= 1e-3:
                 mu.fail(key + ":parametric-dependent-vectors/zero-" + _zp(n), "parametric() vectors %r, %r are not independent" % (v, w))
             elif abs(K.dot(vf, nf)) > 1e-9 * max(1.0, K.norm(vf)) or abs(K.dot(wf, nf)) > 1e-9 * max(1.0, K.norm(wf)):
                 mu.fail(key + ":parametric-vectors-off-plane/zero-" + _zp(n), "parametric() vectors %r, %r are not parallel to the plane" % (v, w))
@@ -123,6 +135,14 @@ def _judge_plane(G, mu, Pobj, pd, key):
                     mu.fail(key + ":Plane(parametric)-raises-" + M.classify_exc(exc), "Plane(Point(u), v, w) raised %r" % exc)
                 else:
                     _plane_eq(mu, G, "Plane(Point(u), v, w)", Q, Pobj, pd, key + ":parametric-roundtrip")
+                    # u + v, u + w and u + 2v - w are points of P
+                    uf = tuple(float(c) for c in u)
+                    for a_, b_ in ((1, 0), (0, 1), (2, -1)):
+                        x_ = tuple(uf[t] + a_ * vf[t] + b_ * wf[t] for t in range(3))
+                        off = K.dot(nf, K.sub(x_, tuple(float(c) for c in (Pobj.p.x, Pobj.p.y, Pobj.p.z))))
+                        if abs(off) > 1e-7 * max(1.0, K.norm(x_)) or not (G.Point(*x_) in Pobj):
+                            mu.fail(key + ":parametric-point-off-plane/zero-" + _zp(n), "u + %dv + %dw = %r is not a point of the plane (offset %.3g)" % (a_, b_, x_, off))
+                            break
         except Exception as e:
             mu.fail(key + ":parametric-malformed", "parametric() returned %r (%s)" % (res, e))
     # negation
@@ -194,6 +214,8 @@ def judge(case):
         p, n = case["p"], case["n"]
         pd = ("PL", p, n)
         mu.cell("kind:plane", "zero-pattern:" + _zp(n))
+        if case.get("wide"):
+            mu.cell("plane:normal-components-up-to-5")
         if next(x for x in n if x != 0) < 0:
             mu.cell("negative-leading")
         r = random.Random(case["ls"])
@@ -237,6 +259,8 @@ def judge(case):
     p, d = case["p"], case["d"]
     ld = ("L", p, d)
     mu.cell("kind:line", "zero-pattern:" + _zp(d))
+    if case.get("special"):
+        mu.cell("line:" + case["special"])
     objs = []
     for f in range(3):
         o, exc, _ = M.call(lambda: lift(ld, None, form=f), pure=False)
